@@ -882,6 +882,7 @@ Definition apply_stage (fuel : nat) (s : st) (sg : stage) (r : rv) : rr :=
       match r with
       | RVal (VList _ []) | RSet [] => (s, Err EOther)            (* AssertionError *)
       | RVal (VList _ _) | RSet _ => (s, Ok r)
+      | ROrd _ _ => (s, Unsupported)        (* handed on already sorted: a later thenBy is ignored; kept out of the cases *)
       | _ => with_it s r (fun i =>
                match next fuel s i with
                | (s1, Yield v i') => ok_it s1 (Chain (OfList [v]) (Memo i'))
